@@ -27,6 +27,20 @@ from spyne.model.primitive import NATIVE_MAP
 from spyne.util import six
 
 
+def significant_str_len(value):
+    """Length of a numeric literal without the parts that don't change the
+    number: surrounding whitespace, an explicit plus sign and leading zeros."""
+
+    if isinstance(value, six.binary_type):
+        value = value.decode('ascii', 'replace')
+
+    value = value.strip()
+    negative = value.startswith('-')
+    value = value.lstrip('+-').lstrip('0')
+
+    return len(value) + (1 if negative else 0)
+
+
 class NumberLimitsWarning(Warning):
     pass
 
@@ -189,7 +203,8 @@ class Decimal(SimpleModel):
     @staticmethod
     def validate_string(cls, value):
         return SimpleModel.validate_string(cls, value) and (
-            value is None or (len(value) <= cls.Attributes.max_str_len)
+            value is None or
+                  (significant_str_len(value) <= cls.Attributes.max_str_len)
         )
 
     @staticmethod
